@@ -116,6 +116,21 @@ Lemma patched_conn_without_separator_rejected :
   forall my pg, validate_log_config my pg no_sep_config = Reject.
 Proof. intros my pg. vm_compute. reflexivity. Qed.
 
+(* ... and not only on that witness: on EVERY connection string that starts with "mysql" and
+   contains no "://", the unpatched check panics and the patched one rejects *)
+Theorem prefix_every_separatorless_mysql_string_panics :
+  forall my pg c,
+    lc_storage_backend c = backend_CTFE -> has_prefix (lc_conn c) "mysql" = true ->
+    ~ occurs "://" (lc_conn c) ->
+    check_conn_prefix my pg c = Panic /\ check_conn my pg c = Reject.
+Proof.
+  intros my pg c Hb Hp Hno.
+  assert (Hne : lc_conn c <> "") by (apply (has_prefix_nonempty _ "mysql"); [discriminate | exact Hp]).
+  apply slen_zero_false in Hne.
+  unfold check_conn_prefix, check_conn, c_missing_conn, c_mysql_no_sep.
+  rewrite Hb, Z.eqb_refl, Hne, Hp, (split_no_occurrence _ _ Hno). split; reflexivity.
+Qed.
+
 (* C15-2: absent `backends` *)
 Theorem prefix_absent_backends_panics_refuted :
   exists m, forall my pg, validate_log_multi_config_prefix my pg m = Panic.
